@@ -37,15 +37,19 @@ const FAMS: &[&str] = &[
     "rej-unresolved-fns",
     "rej-blob-generics",
     "rej-imports",
+    "rej-enum-generics",
 ];
-const R_N: usize = 7; // n = 2..8
-const R_K: usize = 3; // k = 2..4
+/// the valid (n, k) pairs: n = 2..8 fields/variants/functions/files, k = 2..min(4, n) planted errors
+const NK: &[(usize, usize)] = &[
+    (2, 2), (3, 2), (3, 3), (4, 2), (4, 3), (4, 4), (5, 2), (5, 3), (5, 4), (6, 2), (6, 3), (6, 4), (7, 2), (7, 3),
+    (7, 4), (8, 2), (8, 3), (8, 4),
+];
 const R_ORD: usize = 4;
 const R_POS: usize = 3;
 const R_SUB: usize = 2;
 
 fn universe_size() -> usize {
-    FAMS.len() * R_N * R_K * R_ORD * R_POS * R_SUB
+    FAMS.len() * NK.len() * R_ORD * R_POS * R_SUB
 }
 
 #[derive(Clone, Debug, Serialize, Deserialize)]
@@ -87,10 +91,8 @@ fn case_at(idx: usize) -> Case {
     let mut m = idx - 1;
     let f = m % FAMS.len();
     m /= FAMS.len();
-    let n = 2 + m % R_N;
-    m /= R_N;
-    let k0 = 2 + m % R_K;
-    m /= R_K;
+    let (n, k) = NK[m % NK.len()];
+    m /= NK.len();
     let ord = m % R_ORD;
     m /= R_ORD;
     let pos = m % R_POS;
@@ -98,7 +100,6 @@ fn case_at(idx: usize) -> Case {
     let sub = m % R_SUB;
     let fam = FAMS[f];
     let rej = fam.starts_with("rej-");
-    let k = k0.min(n);
     let mut errpos: Vec<usize> = if rej { (0..k).map(|j| (pos + j * (n / k)) % n).collect() } else { vec![] };
     errpos.sort();
     Case {
@@ -182,30 +183,52 @@ fn blob_lit(name: &str, order: &[usize], valof: &dyn Fn(usize) -> String) -> Str
 // Rendering: accepted families
 
 fn render_ok_blob(c: &Case) -> Project {
+    // pos 0: plain fields; pos 1: the blob is generic and logical field 0 has the generic type;
+    // pos 2: logical field 0 is another blob
     let order = &c.perm;
     let lit_order = perm(c.n, (c.ord + c.k) % 4);
+    let pos = c.pos;
+    let tyof = move |j: usize| match (pos, j) {
+        (1, 0) => "*t".to_string(),
+        (2, 0) => "Inner".to_string(),
+        _ => ty(j).to_string(),
+    };
+    let valof = move |j: usize| match (pos, j) {
+        (2, 0) => "Inner { v: 7 }".to_string(),
+        _ => val(j).to_string(),
+    };
+    let read = move |j: usize| match (pos, j) {
+        (2, 0) => format!("r.{}.v", NAMES[0]),
+        _ => format!("r.{}", NAMES[j]),
+    };
+    let generics = if pos == 1 { "(*t)" } else { "" };
     let mut s = Src::new();
-    s.l(&blob_decl("Rec", "", order, &|j| ty(j).to_string()));
+    if pos == 2 {
+        s.l("Inner :: blob {\n    v: int,\n}");
+    }
+    s.l(&blob_decl("Rec", generics, order, &tyof));
     if c.sub == 0 {
         s.l("mk :: fn -> Rec do");
-        s.l(&format!("    ret {}", blob_lit("Rec", &lit_order, &|j| val(j).to_string())));
+        s.l(&format!("    ret {}", blob_lit("Rec", &lit_order, &valof)));
         s.l("end");
         s.l("start :: fn do");
         s.l("    r := mk()");
         for &j in lit_order.iter().rev() {
-            s.l(&format!("    print(r.{})", NAMES[j]));
+            s.l(&format!("    print({})", read(j)));
         }
         s.l("end");
     } else {
         s.l("show :: fn r: Rec do");
         for &j in order.iter() {
-            s.l(&format!("    print(r.{})", NAMES[j]));
+            s.l(&format!("    print({})", read(j)));
         }
         s.l("end");
         s.l("start :: fn do");
-        s.l(&format!("    r := {}", blob_lit("Rec", &lit_order, &|j| val(j).to_string())));
+        s.l(&format!("    r := {}", blob_lit("Rec", &lit_order, &valof)));
         for &j in order.iter().take(c.k) {
-            s.l(&format!("    r.{} = {}", NAMES[j], val(j + 4)));
+            if j != 0 {
+                s.l(&format!("    r.{} = {}", NAMES[j], val(j + 4)));
+            }
         }
         s.l("    show(r)");
         s.l("end");
@@ -215,10 +238,15 @@ fn render_ok_blob(c: &Case) -> Project {
 
 fn render_ok_enum(c: &Case) -> Project {
     // variant j carries a payload of type ty(j) when j is even, nothing when odd
+    // pos 0: plain payloads; pos 1: the enum is generic and variant 0 carries the generic; pos 2: variant 0 carries a tuple
     let mut s = Src::new();
-    s.l("Choice :: enum");
+    s.l(if c.pos == 1 { "Choice :: enum(*t)" } else { "Choice :: enum" });
     for &j in c.perm.iter() {
-        if j % 2 == 0 {
+        if j == 0 && c.pos == 1 {
+            s.l(&format!("    {} *t", VNAMES[j]));
+        } else if j == 0 && c.pos == 2 {
+            s.l(&format!("    {} (int, str)", VNAMES[j]));
+        } else if j % 2 == 0 {
             s.l(&format!("    {} {}", VNAMES[j], ty(j / 2)));
         } else {
             s.l(&format!("    {}", VNAMES[j]));
@@ -248,7 +276,9 @@ fn render_ok_enum(c: &Case) -> Project {
     s.l("end");
     s.l("start :: fn do");
     for &j in c.perm.iter().take(c.k + 1) {
-        if j % 2 == 0 {
+        if j == 0 && c.pos == 2 {
+            s.l(&format!("    print(describe(Choice.{} (3, \"t\")))", VNAMES[j]));
+        } else if j % 2 == 0 {
             s.l(&format!("    print(describe(Choice.{} {}))", VNAMES[j], val(j / 2)));
         } else {
             s.l(&format!("    print(describe(Choice.{}))", VNAMES[j]));
@@ -558,6 +588,30 @@ fn render_rej_blob_generics(c: &Case) -> Project {
     single(s.s.clone())
 }
 
+fn render_rej_enum_generics(c: &Case) -> Project {
+    // one enum declaration; the variants in errpos carry a generic that was never declared
+    let generics = if c.sub == 1 { "(*t)" } else { "" };
+    let first_good = (0..c.n).find(|j| !is_err(c, *j));
+    let mut s = Src::new();
+    s.l(&format!("Choice :: enum{}", generics));
+    for &j in c.perm.iter() {
+        if is_err(c, j) {
+            s.l(&format!("    {} *u{}", VNAMES[j], j));
+        } else if c.sub == 1 && Some(j) == first_good {
+            s.l(&format!("    {} *t", VNAMES[j]));
+        } else if j % 2 == 0 {
+            s.l(&format!("    {} {}", VNAMES[j], ty(j / 2)));
+        } else {
+            s.l(&format!("    {}", VNAMES[j]));
+        }
+    }
+    s.l("end");
+    s.l("start :: fn do");
+    s.l("    print(1)");
+    s.l("end");
+    single(s.s.clone())
+}
+
 fn render_rej_imports(c: &Case) -> Project {
     // main imports n things in perm order; the ones in errpos do not exist
     // sub 0: `use missing<j>` (no such file); sub 1: `from mod<j> use nope<j>` (no such name in an existing module)
@@ -603,6 +657,436 @@ fn render(c: &Case) -> Project {
         "rej-unresolved-fns" => render_rej_unresolved_fns(c),
         "rej-blob-generics" => render_rej_blob_generics(c),
         "rej-imports" => render_rej_imports(c),
+        "rej-enum-generics" => render_rej_enum_generics(c),
         _ => tool_error("unknown family"),
+    }
+}
+
+// ------------------------------------------------------------------------------------------------
+// Inputs: "u:<idx>" (universe) or "c:<dir>|<main relative to dir>" (corpus file, project = every .sy under dir)
+
+#[derive(Clone)]
+struct Input {
+    spec: String,
+    case: Option<Case>,
+    project: Project,
+}
+
+fn walk(dir: &Path, base: &Path, out: &mut BTreeMap<String, String>) {
+    let mut ents: Vec<_> = match std::fs::read_dir(dir) {
+        Ok(r) => r.filter_map(|e| e.ok()).collect(),
+        Err(_) => return,
+    };
+    ents.sort_by_key(|e| e.path());
+    for e in ents {
+        let p = e.path();
+        if p.is_dir() {
+            walk(&p, base, out);
+        } else if p.extension().map(|x| x == "sy").unwrap_or(false) {
+            if let Ok(s) = std::fs::read_to_string(&p) {
+                out.insert(p.strip_prefix(base).unwrap().to_string_lossy().to_string(), s);
+            }
+        }
+    }
+}
+
+thread_local! {
+    static CORPUS: std::cell::RefCell<BTreeMap<String, BTreeMap<String, String>>> = std::cell::RefCell::new(BTreeMap::new());
+}
+
+fn corpus_files(dir: &str) -> BTreeMap<String, String> {
+    CORPUS.with(|c| {
+        c.borrow_mut()
+            .entry(dir.to_string())
+            .or_insert_with(|| {
+                let mut m = BTreeMap::new();
+                walk(Path::new(dir), Path::new(dir), &mut m);
+                m
+            })
+            .clone()
+    })
+}
+
+fn input_of(spec: &str) -> Input {
+    if let Some(i) = spec.strip_prefix("u:") {
+        let idx: usize = i.parse().unwrap_or_else(|_| tool_error("bad universe index"));
+        if idx < 1 || idx > universe_size() {
+            tool_error("universe index out of range");
+        }
+        let c = case_at(idx);
+        let p = render(&c);
+        Input { spec: spec.to_string(), case: Some(c), project: p }
+    } else if let Some(rest) = spec.strip_prefix("c:") {
+        let (dir, main) = rest.split_once('|').unwrap_or_else(|| tool_error("bad corpus spec"));
+        // only the files in the main file's directory tree and below the corpus root can be imported;
+        // the whole tree is served so that `use` works exactly as on disk
+        let files = corpus_files(dir);
+        Input { spec: spec.to_string(), case: None, project: Project { files, main: main.to_string() } }
+    } else {
+        tool_error(&format!("bad input spec {:?}", spec))
+    }
+}
+
+// ------------------------------------------------------------------------------------------------
+// Observation of one compilation
+
+#[derive(Clone, Debug, Serialize, Deserialize)]
+struct Obs {
+    class: String,
+    /// fnv over the Lua bytes, or over the whole rendered error list (kind,file,line,cols,message,rendered in order)
+    digest: String,
+    nerr: usize,
+    /// first error's kind and location
+    d_first: String,
+    /// the list of (kind, file, line, cols) in order
+    d_locs: String,
+    /// the sorted multiset of complete errors (equal for two runs that differ only in order)
+    d_set: String,
+}
+
+fn observe(r: &CompileResult) -> Obs {
+    match r {
+        CompileResult::Ok { lua } => {
+            let d = hex(fnv(lua));
+            Obs { class: "ok".into(), digest: d.clone(), nerr: 0, d_first: d.clone(), d_locs: d.clone(), d_set: d }
+        }
+        CompileResult::Panic { message, bytes_written } => {
+            let d = hex(fnv(&format!("panic|{}|{}", message, bytes_written)));
+            Obs { class: "panic".into(), digest: d.clone(), nerr: 0, d_first: d.clone(), d_locs: d.clone(), d_set: d }
+        }
+        CompileResult::Err { errors, bytes_written } => {
+            let loc = |e: &vharness::ErrInfo| {
+                format!("{}|{}|{}|{}|{}|{}", e.kind, e.file, e.line, e.line_end, e.col_start, e.col_end)
+            };
+            let full = |e: &vharness::ErrInfo| format!("{}|{}|{}\u{1}", loc(e), e.message, e.rendered);
+            let all: Vec<String> = errors.iter().map(full).collect();
+            let mut sorted = all.clone();
+            sorted.sort();
+            Obs {
+                class: "err".into(),
+                digest: hex(fnv(&format!("{}#{}", all.join("\u{2}"), bytes_written))),
+                nerr: errors.len(),
+                d_first: hex(fnv(&errors.first().map(loc).unwrap_or_default())),
+                d_locs: hex(fnv(&errors.iter().map(loc).collect::<Vec<_>>().join("\u{2}"))),
+                d_set: hex(fnv(&format!("{}#{}", sorted.join("\u{2}"), bytes_written))),
+            }
+        }
+    }
+}
+
+/// What is kept of a full result for the replay object (Lua is kept whole: the property is about bytes).
+fn full_result(r: &CompileResult) -> Value {
+    match r {
+        CompileResult::Ok { lua } => json!({"class": "ok", "lua": lua}),
+        CompileResult::Panic { message, bytes_written } => {
+            json!({"class": "panic", "message": message, "bytes_written": bytes_written})
+        }
+        CompileResult::Err { errors, bytes_written } => json!({"class": "err", "bytes_written": bytes_written,
+            "errors": errors.iter().map(|e| json!({"kind": e.kind, "file": e.file, "line": e.line, "line_end": e.line_end,
+                "col_start": e.col_start, "col_end": e.col_end, "message": e.message, "rendered": e.rendered})).collect::<Vec<_>>()}),
+    }
+}
+
+#[derive(Serialize, Deserialize)]
+struct Job {
+    spec: String,
+    /// digest of this input's first in-process run; the worker ships its full result only when it differs
+    reference: String,
+}
+
+#[derive(Serialize, Deserialize)]
+struct JobOut {
+    obs: Obs,
+    /// how many compilations this worker thread had done before this one
+    before: usize,
+    full: Option<Value>,
+}
+
+thread_local! {
+    static DONE: std::cell::Cell<usize> = std::cell::Cell::new(0);
+}
+
+fn compile_counted(p: &Project) -> (CompileResult, usize) {
+    let before = DONE.with(|d| {
+        let v = d.get();
+        d.set(v + 1);
+        v
+    });
+    (compile(p), before)
+}
+
+fn worker(jobs_path: &str, out_path: &str) {
+    let jobs: Vec<Job> = read_ndjson(Path::new(jobs_path));
+    // every worker walks the inputs in its own order, so the number of earlier compilations differs per process
+    let mut order: Vec<usize> = (0..jobs.len()).collect();
+    let salt = std::env::var("C16_ORDER").ok().and_then(|s| s.parse::<u64>().ok()).unwrap_or(0);
+    let mut rng = rand::rngs::StdRng::seed_from_u64(seed() ^ salt.wrapping_mul(0x9e3779b97f4a7c15));
+    order.shuffle(&mut rng);
+    let res = vharness::pool::par_map(&order, |_, &q| {
+        let inp = input_of(&jobs[q].spec);
+        let (r, before) = compile_counted(&inp.project);
+        let obs = observe(&r);
+        let full = if obs.digest != jobs[q].reference { Some(full_result(&r)) } else { None };
+        (q, JobOut { obs, before, full })
+    });
+    let mut outs: Vec<Option<JobOut>> = (0..jobs.len()).map(|_| None).collect();
+    for (q, o) in res {
+        outs[q] = Some(o);
+    }
+    let outs: Vec<JobOut> = outs.into_iter().map(|o| o.unwrap()).collect();
+    write_ndjson(Path::new(out_path), &outs);
+}
+
+// ------------------------------------------------------------------------------------------------
+// The recorder
+
+const IN_RUNS: usize = 6;
+const X_RUNS: usize = 3;
+
+fn spawn_worker(x: usize, jobs: &Path, out: &Path, scratch: &Path) -> std::process::Child {
+    let exe = std::env::current_exe().unwrap_or_else(|e| tool_error(&format!("current_exe: {}", e)));
+    let mut cmd = std::process::Command::new(exe);
+    cmd.arg("worker").arg(jobs).arg(out);
+    let home = scratch.join(format!("home-x{}", x));
+    let _ = std::fs::create_dir_all(&home);
+    let nthreads = vharness::pool::threads();
+    // three deliberately different process environments (nothing here may influence a compiler's output)
+    match x {
+        1 => {
+            cmd.env("HOME", &home).env("LANG", "C").env("LC_ALL", "C").env("RUST_BACKTRACE", "0");
+            cmd.env("TZ", "UTC").env("VERIF_THREADS", format!("{}", (nthreads / 3).max(1)));
+            cmd.current_dir("/");
+        }
+        2 => {
+            cmd.env("HOME", "/nonexistent-c16").env("LANG", "sv_SE.UTF-8").env("LC_ALL", "sv_SE.UTF-8");
+            cmd.env("RUST_BACKTRACE", "1").env("TZ", "Asia/Kolkata").env("TERM", "dumb").env("NO_COLOR", "1");
+            cmd.env("VERIF_THREADS", format!("{}", (nthreads / 3).max(1) + 1));
+            cmd.current_dir(&home);
+        }
+        _ => {
+            cmd.env_clear();
+            cmd.env("PATH", "/usr/bin:/bin").env("RUST_BACKTRACE", "full").env("LANG", "ja_JP.eucJP");
+            cmd.env("SYLT_HOME", "/tmp/sylt").env("USER", "nobody").env("COLUMNS", "20");
+            cmd.env("VERIF_THREADS", format!("{}", (nthreads / 3).max(1) + 2));
+            cmd.current_dir(std::env::temp_dir());
+        }
+    }
+    cmd.env("VERIF_SEED", format!("{}", seed())).env("C16_ORDER", format!("{}", x));
+    cmd.stdout(std::process::Stdio::null());
+    cmd.spawn().unwrap_or_else(|e| tool_error(&format!("cannot start worker x{}: {}", x, e)))
+}
+
+fn record(specs: Vec<String>, trace_path: &str, inputs_path: &str) {
+    let stub = std::env::var("C16_STUB").ok();
+    let n = specs.len();
+    let trace_p = Path::new(trace_path);
+    let parent = match trace_p.parent() {
+        Some(d) if !d.as_os_str().is_empty() => d.to_path_buf(),
+        _ => std::path::PathBuf::from("."),
+    };
+    let _ = std::fs::create_dir_all(&parent);
+    let parent = std::fs::canonicalize(&parent).unwrap_or_else(|e| tool_error(&format!("{}: {}", parent.display(), e)));
+    let scratch = parent.join(format!(
+        "c16-scratch-{}",
+        trace_p.file_stem().map(|s| s.to_string_lossy().to_string()).unwrap_or_default()
+    ));
+    let _ = std::fs::create_dir_all(&scratch);
+
+    // in-process: IN_RUNS passes, each in its own seeded order, all passes interleaved over the pool's threads
+    let mut rng = rand::rngs::StdRng::seed_from_u64(seed() ^ 0xC16);
+    let mut schedule: Vec<(usize, usize)> = Vec::new(); // (input ordinal, run 1..6)
+    for run in 1..=IN_RUNS {
+        let mut order: Vec<usize> = (0..n).collect();
+        order.shuffle(&mut rng);
+        schedule.extend(order.into_iter().map(|q| (q, run)));
+    }
+    // mix neighbouring passes so that repetitions of one input are not a fixed distance apart
+    for w in schedule.chunks_mut(97) {
+        w.shuffle(&mut rng);
+    }
+    let results = vharness::pool::par_map(&schedule, |_, &(q, run)| {
+        let inp = input_of(&specs[q]);
+        let (r, before) = compile_counted(&inp.project);
+        (q, run, observe(&r), before, r)
+    });
+    // per input: observations by run, full result of run 1 and of the first in-process run that differs from it
+    let mut obs: Vec<Vec<Option<(Obs, usize)>>> = (0..n).map(|_| (0..IN_RUNS + X_RUNS).map(|_| None).collect()).collect();
+    let mut fulls: Vec<BTreeMap<usize, Value>> = (0..n).map(|_| BTreeMap::new()).collect();
+    let mut first: Vec<Option<CompileResult>> = (0..n).map(|_| None).collect();
+    let mut pending: Vec<Vec<(usize, Obs, CompileResult)>> = (0..n).map(|_| Vec::new()).collect();
+    for (q, run, o, before, r) in results {
+        obs[q][run - 1] = Some((o.clone(), before));
+        if run == 1 {
+            first[q] = Some(r);
+        } else {
+            pending[q].push((run, o, r));
+        }
+    }
+    for q in 0..n {
+        let ref_digest = obs[q][0].as_ref().unwrap().0.digest.clone();
+        pending[q].sort_by_key(|x| x.0);
+        if let Some((run, _, r)) = pending[q].iter().find(|(_, o, _)| o.digest != ref_digest) {
+            fulls[q].insert(1, full_result(first[q].as_ref().unwrap()));
+            fulls[q].insert(*run, full_result(r));
+        }
+    }
+    drop(pending);
+
+    // cross-process: one worker per run over the whole batch
+    let jobs: Vec<Job> =
+        (0..n).map(|q| Job { spec: specs[q].clone(), reference: obs[q][0].as_ref().unwrap().0.digest.clone() }).collect();
+    let jobs_path = scratch.join("jobs.ndjson");
+    write_ndjson(&jobs_path, &jobs);
+    let mut children = Vec::new();
+    for x in 1..=X_RUNS {
+        let out = scratch.join(format!("x{}.ndjson", x));
+        children.push((x, out.clone(), spawn_worker(x, &jobs_path, &out, &scratch)));
+    }
+    for (x, out, mut ch) in children {
+        let st = ch.wait().unwrap_or_else(|e| tool_error(&format!("worker x{}: {}", x, e)));
+        if !st.success() {
+            tool_error(&format!("worker x{} exited with {:?}", x, st.code()));
+        }
+        let outs: Vec<JobOut> = read_ndjson(&out);
+        if outs.len() != n {
+            tool_error(&format!("worker x{} returned {} of {} results", x, outs.len(), n));
+        }
+        for (q, o) in outs.into_iter().enumerate() {
+            if let Some(f) = o.full {
+                if fulls[q].is_empty() {
+                    fulls[q].insert(1, full_result(first[q].as_ref().unwrap()));
+                    fulls[q].insert(IN_RUNS + x, f);
+                }
+            }
+            obs[q][IN_RUNS + x - 1] = Some((o.obs, o.before));
+        }
+    }
+
+    // trace: one record per (input, run), the runs of one input adjacent and in run order
+    let mut trace: Vec<Value> = Vec::with_capacity(n * (IN_RUNS + X_RUNS));
+    let mut inputs: Vec<Value> = Vec::with_capacity(n);
+    for q in 0..n {
+        let inp = input_of(&specs[q]);
+        let case_v = match &inp.case {
+            Some(c) => serde_json::to_value(c).unwrap(),
+            None => json!({"idx": 0, "fam": "corpus", "n": 0, "k": 0, "ord": 0, "pos": 0, "sub": 0,
+                           "errpos": [], "perm": [], "expect": "any"}),
+        };
+        for run in 1..=IN_RUNS + X_RUNS {
+            let (o, before) = obs[q][run - 1].clone().unwrap();
+            let mut rec = case_v.clone();
+            let mut digest = o.digest.clone();
+            let salted = stub.as_deref() == Some("salt") && q % 5 == 2;
+            if salted && run == 6 {
+                digest = hex(fnv(&format!("salt{}", digest))); // negative control: a recorder that lies about one run
+            }
+            rec["salted"] = json!(salted);
+            rec["input"] = json!(q + 1);
+            rec["run"] = json!(run);
+            rec["process"] = json!(if run <= IN_RUNS { "in".to_string() } else { format!("x{}", run - IN_RUNS) });
+            rec["class"] = json!(o.class);
+            rec["digest"] = json!(digest);
+            rec["nerr"] = json!(o.nerr);
+            rec["d_first"] = json!(o.d_first);
+            rec["d_locs"] = json!(o.d_locs);
+            rec["d_set"] = json!(o.d_set);
+            rec["before"] = json!(before);
+            trace.push(rec);
+        }
+        // universe cases: all files of the project; corpus: the main file (the tree around it is the same for all)
+        let src_digest = if inp.case.is_some() {
+            hex(fnv(&serde_json::to_string(&inp.project).unwrap()))
+        } else {
+            hex(fnv(&format!("{}\u{1}{}", inp.project.main, inp.project.files.get(&inp.project.main).cloned().unwrap_or_default())))
+        };
+        let mut iv = json!({"input": q + 1, "spec": specs[q], "case": case_v, "main": inp.project.main,
+                            "src_digest": src_digest, "full": fulls[q]});
+        if inp.case.is_some() {
+            iv["files"] = json!(inp.project.files);
+        } else {
+            iv["files"] = json!({ inp.project.main.clone(): inp.project.files.get(&inp.project.main) });
+        }
+        inputs.push(iv);
+    }
+    write_ndjson(trace_p, &trace);
+    write_ndjson(Path::new(inputs_path), &inputs);
+    let _ = std::fs::remove_dir_all(&scratch);
+    println!("{}", n);
+}
+
+fn show(spec: &str) {
+    let inp = input_of(spec);
+    println!("// input {}", inp.spec);
+    if let Some(c) = &inp.case {
+        println!("// case {}", serde_json::to_string(c).unwrap());
+    }
+    let only_main = inp.case.is_none();
+    for (p, s) in inp.project.files.iter() {
+        if !only_main || *p == inp.project.main {
+            println!("// ---- {}\n{}", p, s);
+        }
+    }
+    let r = compile(&inp.project);
+    let o = observe(&r);
+    println!("// class={} digest={} nerr={}", o.class, o.digest, o.nerr);
+    if let CompileResult::Err { errors, .. } = &r {
+        for e in errors {
+            println!("//   {} {}:{}:{}-{} {}", e.kind, e.file, e.line, e.col_start, e.col_end, e.message.replace('\n', " / "));
+        }
+    }
+    if let CompileResult::Panic { message, .. } = &r {
+        println!("//   panic {}", message);
+    }
+}
+
+fn main() {
+    let args: Vec<String> = std::env::args().collect();
+    let usage = "usage: c16 record universe <count|all> <trace> <inputs> | record corpus <dir> <trace> <inputs> | \
+                 record list <file> <trace> <inputs> | worker <jobs> <out> | show <spec> | size";
+    if args.len() < 2 {
+        tool_error(usage);
+    }
+    match args[1].as_str() {
+        "size" => println!("{}", universe_size()),
+        "show" if args.len() == 3 => show(&args[2]),
+        "worker" if args.len() == 4 => worker(&args[2], &args[3]),
+        "record" if args.len() == 6 => {
+            let specs: Vec<String> = match args[2].as_str() {
+                "universe" => {
+                    let total = universe_size();
+                    let mut idx: Vec<usize> = (1..=total).collect();
+                    if args[3] != "all" {
+                        // stratified: the same number of cases from every family (fam = (idx-1) % |FAMS|)
+                        let count: usize = args[3].parse().unwrap_or_else(|_| tool_error(usage));
+                        let per = (count + FAMS.len() - 1) / FAMS.len();
+                        let mut rng = rand::rngs::StdRng::seed_from_u64(seed() ^ 0x16C);
+                        idx.clear();
+                        for f in 0..FAMS.len() {
+                            let mut rest: Vec<usize> = (0..total / FAMS.len()).collect();
+                            rest.shuffle(&mut rng);
+                            idx.extend(rest.into_iter().take(per).map(|r| r * FAMS.len() + f + 1));
+                        }
+                        idx.sort();
+                    }
+                    idx.into_iter().map(|i| format!("u:{}", i)).collect()
+                }
+                "corpus" => {
+                    let dir = args[3].trim_end_matches('/').to_string();
+                    corpus_files(&dir).keys().map(|rel| format!("c:{}|{}", dir, rel)).collect()
+                }
+                "list" => std::fs::read_to_string(&args[3])
+                    .unwrap_or_else(|e| tool_error(&format!("{}: {}", args[3], e)))
+                    .lines()
+                    .filter(|l| !l.trim().is_empty())
+                    .map(|l| l.trim().to_string())
+                    .collect(),
+                _ => tool_error(usage),
+            };
+            if specs.is_empty() {
+                tool_error("no inputs");
+            }
+            record(specs, &args[4], &args[5]);
+        }
+        _ => tool_error(usage),
     }
 }
